@@ -58,6 +58,15 @@ struct Subst {
 }
 
 #[derive(Deserialize, Default, Clone)]
+struct SendSpec {
+    callee: String,
+    phase: String,
+    wrapper: String,
+    #[serde(default)]
+    extra: String,
+}
+
+#[derive(Deserialize, Default, Clone)]
 struct ItemSpec {
     /// "fn NAME" | "impl TYPE::NAME" | "impl TRAIT for TYPE::NAME" | "impl TRAIT for TYPE" |
     /// "struct NAME" | "enum NAME" | "const NAME" | "type NAME"
@@ -119,6 +128,22 @@ struct ItemSpec {
     /// mention them earlier): variable name -> type
     #[serde(default)]
     let_types: BTreeMap<String, String>,
+    /// N8: channel-call indirection. Calls `CALLEE(.., "PHASE", ..)` are renamed to the per-phase wrapper
+    /// (a one-line external_body function around the real callee, carrying that phase's policy as
+    /// `requires`), with `extra` appended to the argument list. When `sends` is non-empty, a *send*
+    /// (send_to / scatter / broadcast / unverified_broadcast / broadcast_first_scatter_second) whose phase
+    /// is not listed is renamed to `pv_unlisted_CALLEE` (requires false).
+    #[serde(default)]
+    sends: Vec<SendSpec>,
+    /// N3c: operands (by text) of `^` / `&` that are `&bool` / `&u128`: `a ^ r` → `a ^ (*r)` — std's
+    /// `impl BitXor<&bool> for bool` forwards to the by-value impl; Verus' translator panics on the
+    /// reference-typed operator form
+    #[serde(default)]
+    deref_operands: Vec<String>,
+    /// N17: `A == B` / `A != B` (regexes on the expression text) → `pv_eq(&(A), &(B))` / `!pv_eq(..)`:
+    /// derived PartialEq on Option / tuple of plain data has no vstd specification
+    #[serde(default)]
+    eq_sites: Vec<String>,
     /// N4: names for tuple-pattern parameters, by parameter index ("2" -> "t1")
     #[serde(default)]
     arg_names: BTreeMap<String, String>,
@@ -358,6 +383,9 @@ impl<'ast, 't> Visit<'ast> for LoopCollector<'t> {
 // ---------------------------------------------------------------- normalisation rules
 
 struct Normaliser<'t> {
+    eq_sites: Vec<Regex>,
+    deref_operands: Vec<String>,
+    sends: Vec<SendSpec>,
     n2_types: Vec<(Regex, String)>,
     let_types: BTreeMap<String, String>,
     n9: bool,
@@ -516,6 +544,25 @@ impl<'t> Normaliser<'t> {
         if !(self.on)("N7") {
             return false;
         }
+        // `for x in S.iter().copied() BODY` → `for __pv_ref_x in S.iter() { let x = *__pv_ref_x; BODY }`
+        if let (syn::Pat::Ident(ip), syn::Expr::MethodCall(cp)) = (&*e.pat, method_chain_base(&e.expr)) {
+            if cp.method == "copied" && cp.args.is_empty() {
+                if let syn::Expr::MethodCall(it) = method_chain_base(&cp.receiver) {
+                    if it.method == "iter" && it.args.is_empty() {
+                        let x = ip.ident.to_string();
+                        let tmp = format!("__pv_ref_{}", x);
+                        let (ps, pe) = br(e.pat.span());
+                        let (es, ee) = br(e.expr.span());
+                        let (bs, _) = br(e.body.span());
+                        let seq = self.t(cp.receiver.span()).to_string();
+                        self.push(ps, pe, tmp.clone(), "N7");
+                        self.push(es, ee, seq, "N7");
+                        self.push(bs + 1, bs + 1, format!(" let {} = *{};", x, tmp), "N7");
+                        return true;
+                    }
+                }
+            }
+        }
         let syn::Pat::Reference(rp) = &*e.pat else { return false };
         let syn::Pat::Ident(ip) = &*rp.pat else { return false };
         let x = ip.ident.to_string();
@@ -617,6 +664,21 @@ impl<'t> Normaliser<'t> {
         };
         let is_ref = |e: &syn::Expr| matches!(method_chain_base(e), syn::Expr::Reference(_));
         let txt = self.t(b.span());
+        if !self.deref_operands.is_empty() && (self.on)("N3c") {
+            let mut any = false;
+            for side in [&b.left, &b.right] {
+                let t = nows(self.t(side.span()));
+                if self.deref_operands.iter().any(|d| nows(d) == t) {
+                    let (s, e) = br(side.span());
+                    let old = self.text[s..e].to_string();
+                    self.push(s, e, format!("(*{})", old), "N3c");
+                    any = true;
+                }
+            }
+            if any {
+                return true;
+            }
+        }
         if m == "bitand" && self.bool_and.iter().any(|r| r.is_match(txt)) {
             fn impure(e: &syn::Expr) -> bool {
                 struct R(bool);
@@ -725,6 +787,19 @@ impl<'ast, 't> Visit<'ast> for Normaliser<'t> {
         syn::visit::visit_expr_macro(self, m);
     }
     fn visit_expr_binary(&mut self, b: &'ast syn::ExprBinary) {
+        if !self.eq_sites.is_empty() && (self.on)("N17") {
+            let neg = match b.op { syn::BinOp::Eq(_) => Some(false), syn::BinOp::Ne(_) => Some(true), _ => None };
+            if let Some(neg) = neg {
+                let txt = self.t(b.span());
+                if self.eq_sites.iter().any(|r| r.is_match(txt)) {
+                    let l = self.t(b.left.span()).to_string();
+                    let r = self.t(b.right.span()).to_string();
+                    let (s, e) = br(b.span());
+                    self.push(s, e, format!("{}pv_eq(&({}), &({}))", if neg { "!" } else { "" }, l, r), "N17");
+                    return;
+                }
+            }
+        }
         self.try_n3(b);
         syn::visit::visit_expr_binary(self, b);
     }
@@ -750,6 +825,37 @@ impl<'ast, 't> Visit<'ast> for Normaliser<'t> {
         syn::visit::visit_expr_struct(self, st);
     }
     fn visit_expr_call(&mut self, c: &'ast syn::ExprCall) {
+        // N8
+        if !self.sends.is_empty() && (self.on)("N8") {
+            if let syn::Expr::Path(p) = &*c.func {
+                if let Some(last) = p.path.segments.last() {
+                    let callee = last.ident.to_string();
+                    const SENDS: [&str; 5] = ["send_to", "scatter", "broadcast", "unverified_broadcast", "broadcast_first_scatter_second"];
+                    const RECVS: [&str; 2] = ["recv_from", "recv_vec_from"];
+                    if p.path.segments.len() == 1 && (SENDS.contains(&callee.as_str()) || RECVS.contains(&callee.as_str())) {
+                        // phase = the string literal argument
+                        let phase = c.args.iter().find_map(|a| match a {
+                            syn::Expr::Lit(l) => match &l.lit { syn::Lit::Str(s) => Some(s.value()), _ => None },
+                            _ => None,
+                        });
+                        let hit = phase.as_ref().and_then(|ph| self.sends.iter().find(|s| s.callee == callee && &s.phase == ph)).cloned();
+                        let (fs, fe) = br(last.ident.span());
+                        if let Some(h) = hit {
+                            self.push(fs, fe, h.wrapper.clone(), "N8");
+                            if !h.extra.is_empty() {
+                                let (_, ce) = br(c.span());
+                                // before the closing parenthesis
+                                let had_trailing = self.text[..ce - 1].trim_end().ends_with(',');
+                                self.push(ce - 1, ce - 1, format!("{}{}", if had_trailing { " " } else { ", " }, h.extra), "N8");
+                            }
+                        } else if SENDS.contains(&callee.as_str()) {
+                            self.push(fs, fe, format!("pv_unlisted_{}", callee), "N8");
+                        }
+                        // fall through to visit the arguments (names no longer match after the rename)
+                    }
+                }
+            }
+        }
         if self.n9 && (self.on)("N9") {
             if let syn::Expr::Path(p) = &*c.func {
                 if p.qself.is_none() && p.path.segments.len() == 2 && p.path.segments[0].ident == "Error" {
@@ -774,6 +880,31 @@ impl<'ast, 't> Visit<'ast> for Normaliser<'t> {
             }
         }
         syn::visit::visit_expr_path(self, p);
+    }
+    fn visit_expr_closure(&mut self, c: &'ast syn::ExprClosure) {
+        // N4b: tuple-pattern closure parameters → plain identifier + leading `let`
+        if (self.on)("N4") && c.asyncness.is_none() {
+            let mut lets = String::new();
+            let mut eds = vec![];
+            for (k, p) in c.inputs.iter().enumerate() {
+                if let syn::Pat::Tuple(_) = p {
+                    let (s, e) = br(p.span());
+                    let name = format!("__pv_c{}", k);
+                    lets.push_str(&format!("let {} = {}; ", &self.text[s..e], name));
+                    eds.push((s, e, name));
+                }
+            }
+            if !eds.is_empty() {
+                for (s, e, n) in eds {
+                    self.push(s, e, n, "N4");
+                }
+                let (bs, be) = br(c.body.span());
+                self.push(bs, bs, format!("{{ {}", lets), "N4");
+                self.push(be, be, " }".to_string(), "N4");
+                return;
+            }
+        }
+        syn::visit::visit_expr_closure(self, c);
     }
     fn visit_expr_index(&mut self, ix: &'ast syn::ExprIndex) {
         if (self.on)("N13") {
@@ -1087,7 +1218,7 @@ fn main() {
             };
             for fp in &fns {
                 sig_edits(&text, fp, &on, &it.arg_names, &mut edits);
-                let mut nz = Normaliser { n2_types: it.n2_types.iter().filter_map(|(r, t)| Regex::new(r).ok().map(|r| (r, t.clone()))).collect(), let_types: it.let_types.clone(), n9: it.n9, n6: it.n6.clone(), reg_index: it.reg_index.clone(), bool_and: it.bool_and.iter().filter_map(|r| Regex::new(r).ok()).collect(), n3_all: it.n3.as_deref() == Some("all"), n3_match: it.n3_match.iter().filter_map(|r| Regex::new(r).ok()).collect(), text: &text, edits: vec![], on: &on, eager_futs: vec![] };
+                let mut nz = Normaliser { eq_sites: it.eq_sites.iter().filter_map(|r| Regex::new(r).ok()).collect(), deref_operands: it.deref_operands.clone(), sends: it.sends.clone(), n2_types: it.n2_types.iter().filter_map(|(r, t)| Regex::new(r).ok().map(|r| (r, t.clone()))).collect(), let_types: it.let_types.clone(), n9: it.n9, n6: it.n6.clone(), reg_index: it.reg_index.clone(), bool_and: it.bool_and.iter().filter_map(|r| Regex::new(r).ok()).collect(), n3_all: it.n3.as_deref() == Some("all"), n3_match: it.n3_match.iter().filter_map(|r| Regex::new(r).ok()).collect(), text: &text, edits: vec![], on: &on, eager_futs: vec![] };
                 nz.visit_block(fp.block);
                 edits.extend(nz.edits);
                 let _ = fp.whole;
